@@ -61,14 +61,20 @@ fn parse_repl_meta<T: AsRef<[u8]>>(resp: &Resp<T>) -> Result<ReplicatorMeta, Cmd
     };
 
     // Skip the "UMCTL SETREPL"
-    let it = arr.iter().skip(2).flat_map(|resp| match resp {
-        Resp::Bulk(BulkStr::Str(safe_str)) => match str::from_utf8(safe_str.as_ref()) {
-            Ok(s) => Some(s.to_string()),
-            _ => None,
-        },
-        _ => None,
-    });
-    let mut it = it.peekable();
+    // Every argument must be a valid string.
+    // Skipping a broken one would shift all the following arguments.
+    let mut args = Vec::new();
+    for resp in arr.iter().skip(2) {
+        match resp {
+            Resp::Bulk(BulkStr::Str(safe_str)) => args.push(
+                str::from_utf8(safe_str.as_ref())
+                    .map_err(|_| CmdParseError::InvalidArgs)?
+                    .to_string(),
+            ),
+            _ => return Err(CmdParseError::InvalidArgs),
+        }
+    }
+    let mut it = args.into_iter().peekable();
 
     let epoch_str = it.next().ok_or(CmdParseError::InvalidEpoch)?;
     let epoch = epoch_str
